@@ -538,8 +538,36 @@ def rule_scan_errors(ctx, fx, config):
                         bad.append(ut.get("ln"))
             ctx.check(not bad, "PANIC", "C01:SCAN:%s:pull-not-unwrapped#%d" % (f.npath, n), "the pulled Result is matched / converted (from_scan_error), never unwrapped", "a parser pull is unwrapped (line %s): a scan error panics" % bad, config, ctx.where(f, b))
     ctx.floor("SCAN.pulls", n, 3, config)
+    # the parser does not recover from a scan error: it repeats it on every further pull and never reports the end of the
+    # stream.  A loop that pulls must therefore *leave* on an `Err` item — passing over it spins forever.
+    nl = 0
+    for f in sorted(fx.fns.values(), key=lambda g: g.npath):
+        pulls = [b for b, t in f.calls() if fx.callee(t) == "live_events::SaphyrParser::next"]
+        if not pulls:
+            continue
+        for comp in f.sccs():
+            for pb in [b for b in pulls if b in comp]:
+                cands = []
+                for sb in sorted(comp):
+                    t = f.blocks[sb]["term"]
+                    if t["k"] != "switch":
+                        continue
+                    with f.deep():
+                        sym = f.sym_operand(t["o"])
+                    if sym[0] != "discr" or not re.search(r"@Some\.0$", render(sym[1])) or not sym_contains(sym, lambda x: x[0] == "call" and len(x) > 3 and x[3] == pb):
+                        continue
+                    cands.append(sb)
+                # the test of the item is the first such switch; later ones on the same value are drop elaboration
+                for sb in [x for x in cands if not any(y != x and f.dominates(y, x) for y in cands)]:
+                    t = f.blocks[sb]["term"]
+                    nl += 1
+                    err_tgt = t["tgts"][t["vals"].index(1)] if 1 in t["vals"] else t["tgts"][-1]
+                    stays = err_tgt in comp and pb in f.reachable([err_tgt], avoid=list(f.return_blocks()))
+                    ctx.check(not stays, "PROGRESS", "C01:PROGRESS:scan-error-leaves-loop:%s" % f.name, "an `Err` item pulled from the parser leaves the pulling loop",
+                              "%s passes over an `Err` item of the parser and pulls again: the parser repeats a scan error on every pull and never ends the stream, so the loop never terminates" % f.name, config, ctx.where(f, sb))
+    ctx.notes.append("%s: SCAN: %d pulling loop(s) branch on the pulled item's Result themselves (the others propagate it with `?`)" % (config, nl))
     ni = fx.fn("live_events::LiveEvents::next_impl")
-    conv = [b for g in _pump_family(fx, ni) for b, t in g.calls() if last_seg(fx.callee(t)) == "map_err" and any(render(g.sym_operand(a)) == "fn:de_error::Error::from_scan_error" for a in t["args"])]
+    conv = [b for g in _pump_family(fx, ni) for b, t in g.calls() if (last_seg(fx.callee(t)) == "map_err" and any(render(g.sym_operand(a)) == "fn:de_error::Error::from_scan_error" for a in t["args"])) or fx.callee(t) == "de_error::Error::from_scan_error"]
     ctx.check(bool(conv), "PANIC", "C01:SCAN:converted", "scan errors are converted with Error::from_scan_error", "next_impl no longer converts scan errors with from_scan_error", config, ctx.where(ni))
 
 
